@@ -359,3 +359,19 @@ Proof.
   destruct Io as (Hn & Hr & HK & Ht & _). pose proof (first_outgoing_range uni client).
   split; [destruct HK as [[H1 H2]|[H1 H2]]; lia|]. split; [exact Ht|]. exists n. split; [exact Hn|lia].
 Qed.
+
+(** ** Every reachable state of the streamsMap: all per-map facts, for both stream types *)
+Theorem sm_reachable_facts : forall client mb mu ops s outs uni,
+  0 <= mb -> 0 <= mu -> Forall top_ok ops ->
+  trun (init_sm client mb mu) ops = (s, outs) ->
+  in_facts (first_incoming uni client) (s_in s uni) /\ i_uni (s_in s uni) = uni /\
+  out_facts (s_out s uni) /\ o_uni (s_out s uni) = uni.
+Proof.
+  intros client mb mu ops s outs uni Hb Hu Hok E.
+  destruct (trun_inv _ _ _ _ (sm_inv_init client mb mu Hb Hu) Hok E) as [I (P1 & P2 & P3)].
+  cbn [init_sm s_client] in P1.
+  pose proof (sm_in s uni I) as (Inv & Hui). pose proof (sm_out s uni I) as ((n & K & B & Io) & D & Huo).
+  rewrite P1 in *.
+  split; [eapply in_facts_inv; eauto using first_incoming_range|]. split; [exact Hui|].
+  split; [eapply out_facts_inv; eauto using first_outgoing_range|exact Huo].
+Qed.
